@@ -28,6 +28,11 @@ pub fn run_c02(ctx: &Ctx) -> i32 {
         cfg.aligned_tilemaps = false;
         cfg.flat = true;
         cfg.extremes = false;
+        // link chunks with x / y / opacity of their own (a linked cel renders like its target), the background flag
+        // on layers other than the lowest, visible pixels in tile 0
+        cfg.link_junk = i % 3 == 0;
+        cfg.bg_any = i % 4 == 1;
+        cfg.nonblank_tile0 = i % 5 == 2;
         if i % 7 == 0 {
             cfg.max_w = 40;
             cfg.max_h = 3;
@@ -250,6 +255,10 @@ pub fn run_c06(ctx: &Ctx) -> i32 {
             0 => v.default_storage = Storage::Raw,
             1 => v.default_storage = Storage::Zlib(6),
             _ => v.storage = true,
+        }
+        // the palette in several chunks (a stale sub-range first, then the range in parts)
+        if i % 4 == 1 {
+            v.split = true;
         }
         // cel chunks of a frame in any order (the format does not prescribe one)
         if i % 5 >= 3 {
